@@ -4,9 +4,83 @@
 // build tag `verif`, where it still contains no code). Checked by /verif/govc.
 package types
 
+// ---- C14: vesting schedule ------------------------------------------------------------------
+
 //@ func (*VestingTokens).VestedSoFar
 //@ requires vesting.NumBlocks > 0
 //@ nopanic
 //@ ensures C14/linear-schedule: result == (vesting.TotalAmount * min(blockHeight(ctx) - vesting.StartBlock, vesting.NumBlocks)) / vesting.NumBlocks
 //@ ensures C14/bounded: vesting.TotalAmount >= 0 && blockHeight(ctx) >= vesting.StartBlock ==> result >= 0 && result <= vesting.TotalAmount
 //@ ensures C14/complete: blockHeight(ctx) - vesting.StartBlock >= vesting.NumBlocks ==> result == vesting.TotalAmount
+
+// ---- C12: per-account committed amounts and lock-ups --------------------------------------
+
+// Specification functions over a ledger (first matching entry, like the code).
+//@ define committedOf(c, d) := firstWhere(c.CommittedTokens, t, t.Denom == d, t.Amount, 0)
+// Sum of the still-locked lock-ups of `d` at time `now`.
+//@ define lockedFor(c, d, now) := firstWhere(c.CommittedTokens, t, t.Denom == d, sumOver(t.Lockups, l, ite(l.UnlockTimestamp > now, l.Amount, 0)), 0)
+//@ define lockupsNonNegative(c) := allOf(c.CommittedTokens, t, allOf(t.Lockups, l, l.Amount >= 0))
+//@ define uniqueDenoms(c) := allOf(c.CommittedTokens, t, sumOver(c.CommittedTokens, u, ite(u.Denom == t.Denom, 1, 0)) == 1)
+
+//@ func (*Commitments).GetCommittedAmountForDenom
+//@ ensures C12/getter-is-spec: result == committedOf(c, denom)
+//@ modifies nothing
+
+//@ func (*Commitments).AddCommittedTokens
+//@ forall d Str
+//@ forall now Int
+//@ requires uniqueDenoms(c)
+//@ requires lockupsNonNegative(c)
+//@ ensures C12/unique-denoms: uniqueDenoms(c)
+//@ ensures C12/lockups-non-negative: amount >= 0 ==> lockupsNonNegative(c)
+//@ ensures C12/committed-delta: committedOf(c, d) == old(committedOf(c, d)) + ite(d == denom, amount, 0)
+//@ ensures C12/lockup-recorded: lockedFor(c, d, now) == old(lockedFor(c, d, now)) + ite(d == denom && unlockTime != 0 && unlockTime > now, amount, 0)
+//@ ensures C12/claimed-untouched: amt(c.Claimed, d) == old(amt(c.Claimed, d))
+//@ ensures C12/creator-untouched: c.Creator == old(c.Creator)
+//@ modifies *c
+
+//@ func (*Commitments).DeductFromCommitted
+//@ forall d Str
+//@ requires lockupsNonNegative(c)
+//@ requires uniqueDenoms(c)
+//@ requires amount >= 0
+//@ ensures C12/unique-denoms: uniqueDenoms(c)
+//@ ensures C12/lockups-non-negative: lockupsNonNegative(c)
+//@ ensures C12/committed-delta: err == nil ==> committedOf(c, d) == old(committedOf(c, d)) - ite(d == denom, amount, 0)
+//@ ensures C12/no-overdraw: err == nil ==> old(committedOf(c, denom)) >= amount
+//@ ensures C12/lock-respected: err == nil && !isLiquidation ==> committedOf(c, denom) >= old(lockedFor(c, denom, currTime))
+//@ ensures C12/claimed-untouched: amt(c.Claimed, d) == old(amt(c.Claimed, d))
+//@ ensures C12/creator-untouched: c.Creator == old(c.Creator)
+//@ modifies *c
+
+// ---- hooks of this module (interface contracts) --------------------------------------------
+// The implementations live in x/estaking (and, through it, the SDK's staking and distribution
+// hooks). CommitmentChanged is checked against its implementation: it touches nothing unless
+// Eden or EdenB is among the changed coins. The Before*/EdenUncommitted hooks are reached only
+// on Eden/EdenB paths and are read as "anything may change" (weakest contract, nothing assumed).
+
+//@ define c12TotalGap(ctx, d) := amt(keeperOf("commitment").GetParams(ctx).TotalCommitted, d) - committedTotal(ctx, d)
+
+//@ iface CommitmentHooks.CommitmentChanged
+//@ ensures C12/hook-frame: true
+//@ modifies world if amt(amount, ptypes.Eden) != 0 || amt(amount, ptypes.EdenB) != 0
+
+//@ iface CommitmentHooks.EdenUncommitted
+//@ modifies world
+//@ havoc-only
+
+//@ iface CommitmentHooks.BeforeEdenInitialCommit
+//@ modifies world
+//@ havoc-only
+
+//@ iface CommitmentHooks.BeforeEdenBInitialCommit
+//@ modifies world
+//@ havoc-only
+
+//@ iface CommitmentHooks.BeforeEdenCommitChange
+//@ modifies world
+//@ havoc-only
+
+//@ iface CommitmentHooks.BeforeEdenBCommitChange
+//@ modifies world
+//@ havoc-only
